@@ -1,4 +1,5 @@
 """C01 — quoted podman command lines split back into exactly the intended arguments"""
+import gen_units as G
 import core, gen
 from core import hx, unhx
 
@@ -90,6 +91,12 @@ def oracle(ctx):
         text = f'[Container]\nImage=img\nContainerName={name}\nExec={line}\n'
         units.append(f'convert\t0\t0\t{hx("/q/a b.container")}\t{hx(text)}')
         keep.append((args, name))
+    # every unit type (the Exec* lines of .kube, .pod, .volume, … are rendered at other call sites), values that need quoting
+    import props.c06 as c06
+    for _ in range(1500 if ctx.thorough else 400):
+        ty = rnd.choice(G.TYPES)
+        units.append(f'convert\t0\t0\t{hx("/q/my unit." + ty)}\t{hx(c06.gen_unit(ctx, ty))}')
+        keep.append((None, None))
     co = ctx.impl(units)
     spec_in, meta = [], []
     for (args, name), op, a in zip(keep, units, co):
@@ -113,7 +120,7 @@ def oracle(ctx):
             words = [unhx(t) for t in b[4:-1].split(' ') if t]
             if r != 'ok ' + rawhex:
                 fail = f'{key} line is not the rendering of the words it splits into'
-            elif key == 'ExecStart':
+            elif key == 'ExecStart' and args is not None:
                 exp_tail = args
                 if (args and words[len(words) - len(args):] != exp_tail) or 'img' not in words:
                     fail = f'ExecStart does not end with the Exec= arguments {args}: {words}'
